@@ -168,6 +168,42 @@ def roundTrip (items : List String) (post : Anno → Anno) : String :=
       | .error e => "err:" ++ e.name
     | .error e => "err:" ++ e.name
 
+/-- the lines of `writeGtf` with the attribute column through its text and back -/
+def throughText (ls : List Line) : Except GErr (List Line) :=
+  Gtf.mapE (fun l : Line => match colParse (colText l.attrs) with
+    | .ok kvs => .ok { l with attrs := kvs }
+    | .error e => .error e) ls
+
+/-- `reload` through the column text -/
+def reloadText (a : Anno) : Except GErr Anno :=
+  match writeGtf a with
+  | .ok ls => match throughText ls with
+    | .ok ls' => parseGtf ls'
+    | .error e => .error e
+  | .error e => .error e
+
+def writtenText (a : Anno) : Option (List String) :=
+  match writeGtf a with
+  | .ok ls => some (ls.map lineText)
+  | .error _ => none
+
+/-- closure of the round trip on the model side: the three predicates decided on the model's
+reloaded annotation `r`, `idem`: a second round trip returns `r` itself (attribute dicts
+included), `fix`: the text written from `r` and from its reload agree, `same`: the text written
+from `r` equals the text written from the input -/
+def closedCode (a : Anno) : String :=
+  match reloadText a with
+  | .error e => "err:" ++ e.name
+  | .ok r =>
+    let r2 := reloadText r
+    let idem := match r2 with
+      | .ok x => decide (x = r)
+      | .error _ => false
+    let fix := match r2 with
+      | .ok x => writtenText x == writtenText r && (writtenText r).isSome
+      | .error _ => false
+    s!"wf={b r.wf},ordered={b r.ordered},stable={b r.stable},idem={b idem},fix={b fix},same={b (writtenText r == writtenText a)}"
+
 def handle (args : List String) : Option String :=
   match args with
   | "gtfparse" :: lines =>
@@ -189,6 +225,10 @@ def handle (args : List String) : Option String :=
         | .error e => "err:" ++ e.name)
   | "gtfrt" :: items => some (roundTrip items id)
   | "gtfrtn" :: items => some (roundTrip items Anno.erase)
+  | "gtfclosed" :: items =>
+    some (match parseAnno items with
+      | none => "bad-args"
+      | some a => closedCode a)
   | "gtfwf0" :: items =>
     some (match parseAnno items with
       | none => "bad-args"
